@@ -615,9 +615,10 @@ class KeychainSqlite3(Keychain):
         cert_name = sign_args.get('cert', None)
         if not cert_name:
             key_name = sign_args.get('key', None)
-            if not key_name:
+            # Key and Identity are Mappings: an object with no entry left is falsy but still given
+            if not key_name and not isinstance(key_name, Key):
                 id_name = sign_args.get('identity', None)
-                if id_name:
+                if id_name or isinstance(id_name, Identity):
                     if isinstance(id_name, Identity):
                         identity = id_name
                     else:
